@@ -330,6 +330,8 @@ class FuncContract:
         self.tags = []
         self.opaque = False
         self.assume_terminates = None
+        self.callsites = []
+        self.alias_recv = None
 
     def all_text(self):
         parts = [self.header]
@@ -357,7 +359,7 @@ class LemmaDef:
 
 
 FUNC_CLAUSES = ('requires', 'ensures', 'assigns', 'nopanic', 'inline', 'trusted', 'pure', 'decreases',
-                'loop', 'invariant', 'use', 'tags', 'modifies', 'opaque', 'induction', 'trigger', 'terminates')
+                'loop', 'invariant', 'use', 'tags', 'modifies', 'opaque', 'induction', 'trigger', 'terminates', 'callsite')
 
 
 def strip_comment(s):
@@ -511,6 +513,12 @@ class ContractSet:
                 target.opaque = True
             elif kw == 'trusted':
                 target.trusted = True
+            elif kw == 'callsite':
+                # callsite <callee short name> requires <expr> : extra obligation at every call of that callee
+                m2 = re.match(r'(\w+)\s+requires\s+(.*)$', rest, re.S)
+                if not m2:
+                    raise SpecError('bad callsite clause %r' % rest)
+                target.callsites.append((m2.group(1), Clause(tags, parse_expr(m2.group(2)), m2.group(2))))
             elif kw == 'terminates':
                 # `terminates assumed <reason>`: recursion without a checkable measure; recorded as an assumption
                 target.assume_terminates = rest
